@@ -24,7 +24,7 @@
 //! Defects of the unchanged tree are listed per operator (feature `op_<name>`)
 //! with pinned witnesses (`WITNESSES`), see notes/findings-C09.json.
 
-mod ops;
+pub(crate) mod ops;
 
 use std::cell::Cell;
 use std::collections::BTreeMap;
@@ -203,7 +203,7 @@ impl Base {
 }
 
 /// Index of the operation the request selects.
-fn main_op(gd: &GenDoc) -> Option<usize> {
+pub(crate) fn main_op(gd: &GenDoc) -> Option<usize> {
     match &gd.op_name {
         Some(n) => gd.doc.ops.iter().position(|o| o.name.as_deref() == Some(n.as_str())),
         None if gd.doc.ops.len() == 1 => Some(0),
